@@ -376,6 +376,8 @@ pub fn run(cli: Cli) -> ! {
             }
         }
     }
+    // candidates that share an identifier but differ in address and metadata
+    cand_lists.push(vec![mk("twin", "10.0.0.1:1", &ms[1]), mk("twin", "[2001:db8::2]:2", &ms[2]), mk("twin", "10.0.0.3:3", &ms[0])]);
     cand_lists.push(vec![mk("x", "10.0.0.1:1", &ms[0]), mk("x", "10.0.0.1:1", &ms[0]), mk("y", "[2001:db8::9]:9", &ms[5])]);
     let clients: Vec<SocketAddr> = vec!["198.51.100.7:40123".parse().unwrap(), "[2001:db8::77]:65535".parse().unwrap()];
     let servers: Vec<(&str, u16)> = vec![("play.example.org", 25565), ("", 0), ("zürich 😀 host with spaces", 65535), ("[::1]", 1)];
@@ -410,6 +412,14 @@ pub fn run(cli: Cli) -> ! {
         for p in &ports {
             let f = to_proto(&WireTarget { id: "foreign".into(), host: h.clone(), port: *p, meta: ms[1].clone() });
             jobs.push(Job::Sel(1, Reply::Foreign(f), 0, 0, 0, 769));
+        }
+    }
+    // malformed replies that name one of the candidates (identifier of a candidate, unusable address)
+    let twin_list = cand_lists.iter().position(|l| l.first().is_some_and(|t| t.identifier == "twin")).unwrap();
+    for h in &hs {
+        for p in &ports {
+            let f = to_proto(&WireTarget { id: "twin".into(), host: h.clone(), port: *p, meta: ms[1].clone() });
+            jobs.push(Job::Sel(twin_list, Reply::Foreign(f), 0, 0, 0, 769));
         }
     }
     // full cross of request-side fields on one candidate list
